@@ -97,6 +97,7 @@ func main() {
 		"load_s":           time.Since(start).Seconds(),
 	}
 	exit := 0
+	known0 := known
 	for _, id := range ids {
 		pstart := time.Now()
 		if len(ids) == 1 {
@@ -109,6 +110,45 @@ func main() {
 		c.sanity(r)
 		for _, rule := range p.rules {
 			runRule(c, r, rule)
+		}
+		if *tier == "thorough" {
+			// repeat the whole analysis for the other build variants (the two build-tagged
+			// error files and 32-bit int), each with its own load
+			var variants []map[string]any
+			for _, env := range [][]string{{"GOARCH=386"}, {"GOOS=plan9", "GOARCH=amd64"}} {
+				vc, verr := variantCtx(abs, *tier, *verif, env)
+				info := map[string]any{"env": strings.Join(env, " ")}
+				if verr != nil {
+					r.Unk("loader", "variant:"+strings.Join(env, ","), "", verr.Error())
+					info["error"] = verr.Error()
+					variants = append(variants, info)
+					continue
+				}
+				vr := newReport(id)
+				for _, rule := range p.rules {
+					runRule(vc, vr, rule)
+				}
+				nBad := 0
+				for _, o := range vr.Obls {
+					if o.Status == Violated || o.Status == Undecided {
+						known := false
+						for _, k := range known0 {
+							if k.Property == id && k.Rule == o.Rule && k.Construct == o.Construct && k.Status == "known" {
+								known = true
+							}
+						}
+						if known {
+							continue
+						}
+						nBad++
+						o.Construct = "[" + strings.Join(env, ",") + "] " + o.Construct
+						r.add(o)
+					}
+				}
+				info["packages"], info["functions"], info["obligations"], info["failing"] = len(vc.Pkgs), len(vc.Fns), len(vr.Obls), nBad
+				variants = append(variants, info)
+			}
+			r.Extra["build_variants"] = variants
 		}
 		if code := r.finish(c, *verif, *tier, pstart, known, loadInfo); code > exit {
 			exit = code
@@ -152,4 +192,26 @@ func (c *Ctx) need(r *Report, rule, name string) *ssa.Function {
 		return nil
 	}
 	return fn
+}
+
+var variantCache = map[string]*Ctx{}
+
+func variantCtx(repo, tier, verif string, env []string) (*Ctx, error) {
+	k := strings.Join(env, ",")
+	if c, ok := variantCache[k]; ok {
+		return c, nil
+	}
+	// the bounds engine keeps per-program state: reset it for the variant program
+	pc = &progCtx{
+		ans: map[*ssa.Function]*fnAn{}, callers: map[*ssa.Function][]ssa.CallInstruction{},
+		addrTaken: map[*ssa.Function]bool{}, succ: map[*ssa.Function][]lin{}, succBusy: map[*ssa.Function]bool{},
+		nonneg: map[*ssa.Function]map[int]int{},
+	}
+	c, err := load(repo, tier, env)
+	if err != nil {
+		return nil, err
+	}
+	c.VerifDir = verif
+	variantCache[k] = c
+	return c, nil
 }
